@@ -588,6 +588,11 @@ STEREO = [
     'C/B=C/C', 'C/C=B/C', 'C/B=N/C', 'C/C(F)=B/C', 'CC/S(C)(=O)=N/C', 'C/S(CC)(=O)=C/C', 'C/N=S(/C)(=O)CC', 'C/P(C)(CC)=N/C',
     'C/C=[N+](/C)[O-]', 'C/[N+]([O-])=C/C', 'C/S(CC)=C/C', 'C/C=S(/C)CC',
 ]
+# an isotope label — also one EQUAL to the element's common isotope — is the only difference between two substituents
+ISO_STEREO = ['[12CH3][C@H](C)O', '[12CH3][C@@H](C)O', '[13CH3][C@H](C)O', '[12CH3][C@@H]([13CH3])O', 'C[C@H]([12CH3])N',
+              '[35Cl][C@H](Cl)C', '[35Cl][C@@H]([37Cl])C', '[16OH][C@H](O)C', '[14NH2][C@H](N)C', '[19F][C@](F)(Cl)Br',
+              '[127I][C@H](I)C', '[12CH3]/C(C)=C/F', '[35Cl]/C(Cl)=C/C', 'C/C([12CH3])=C(/C)[12CH3]', '[12CH3]C[C@H](CC)O',
+              '[1H][C@](F)(Cl)Br', '[12CH3][C@]1(C)CC[C@H](O)CC1', 'O[C@H]([12CH3])[C@@H](C)O']
 # RDKit molecules below RDKit's own default valence (accepted by both toolkits): the known finding seen from the RDKit side
 LOWVAL_RD = ['C[Si-](C)(C)C', 'C[PH-](C)(C)C', 'C[Cl+](C)C', 'C[SiH2-]C']
 OTHER = [
@@ -637,6 +642,8 @@ def source_smiles(ctx):
             if t != s:
                 out.append((f'stereo[{i}]~{k}', t))
     out += [(f'lowval[{i}]', s) for i, s in enumerate(LOWVAL_RD)]
+    out += [(f'isostereo[{i}]', s) for i, s in enumerate(ISO_STEREO)]
+    out += isotope_smiles(ctx)
     smis = molgen.corpus_smiles()
     k = 150 if ctx.quick else 1500
     stereo_idx = [i for i, s in enumerate(smis) if '@' in s or '/' in s or '\\' in s]
@@ -644,6 +651,34 @@ def source_smiles(ctx):
     out += [(f'corpus[{i}]', smis[i]) for i in idx]
     out += [(f'handmade[{i}]', s) for i, s in enumerate(molgen.HANDMADE)]
     return out
+
+
+ISO_TEMPLATES = {'H': '[{i}H]C', 'B': '[{i}BH2]C', 'C': '[{i}CH3]C', 'N': '[{i}NH2]C', 'O': '[{i}OH]C', 'F': '[{i}F]C', 'Si': '[{i}SiH3]C',
+                 'P': '[{i}PH2]C', 'S': '[{i}SH]C', 'Cl': '[{i}Cl]C', 'Br': '[{i}Br]C', 'I': '[{i}I]C', 'Se': '[{i}SeH]C', 'As': '[{i}AsH2]C'}
+
+
+def isotope_smiles(ctx):
+    """every tabulated isotope (the keys of `isotopes_distribution`, INCLUDING the one equal to `mdl_isotope`) of the organic
+    elements inside a small molecule both readers accept, and of every other element as a lone bracket atom (thorough: all
+    elements, quick: a sample). These run through all streams and judges like any other source SMILES."""
+    from chython.periodictable import Element
+    out = []
+    others = []
+    for cls in Element.__subclasses__():
+        try:
+            sym, dist, mdl = cls.__name__, cls.isotopes_distribution.fget(None), cls.mdl_isotope.fget(None)
+        except Exception:
+            continue
+        for iso in dist:
+            tag = f'isotope[{sym}{iso}{"=mdl" if iso == mdl else ""}]'
+            if sym in ISO_TEMPLATES:
+                out.append((tag, ISO_TEMPLATES[sym].format(i=iso)))
+            else:
+                others.append((tag, f'[{iso}{sym}+]' if sym in ('Li', 'Na', 'K', 'Rb', 'Cs') else f'[{iso}{sym}]'))
+    if ctx.quick:
+        mdl_first = [x for x in others if '=mdl' in x[0]]
+        others = ctx.rng.sample(mdl_first, min(25, len(mdl_first))) + ctx.rng.sample(others, min(25, len(others)))
+    return out + others
 
 
 def variants(ctx, tag, mol):
